@@ -178,12 +178,21 @@ DIFF_SRCS = [([0, 1, 2], "C"), ([0, 1], "E"), ([0, 1, 2, 3], "U"), ([], "C")]
 DIFF_STARTS = [(0, 0, 0), (0, 5, 11), (0, 40, 80)]
 
 
-def diff_run(name, sidx, stidx, napps, shared, dispose_at=None):
+# factories of the differential part that take no scheduler, no other source and no mapper: these are also run with one
+# scheduler PER APPLICATION (clocks that do not move in lockstep: the first application's scheduler runs to its end before
+# the second one's starts) - an operator object must not keep the scheduler of an earlier subscription
+MULTI_SCHED = ["delay", "delay_subscription", "debounce", "throttle_first", "sample", "timestamp", "time_interval", "timeout",
+               "take_with_time", "skip_with_time", "take_last_with_time", "skip_last_with_time", "take_until_with_time",
+               "skip_until_with_time", "buffer_with_time", "buffer_with_time_or_count", "window_with_time"]
+
+
+def diff_run(name, sidx, stidx, napps, shared, dispose_at=None, multi=False):
     """Observation (per application: timed notifications, source subscriptions) of one scenario."""
     from reactivex.scheduler import VirtualTimeScheduler
     from reactivex.testing import ReactiveTest as R
     from reactivex.testing import TestScheduler
     ts = TestScheduler()
+    tss = [TestScheduler() for _ in range(napps)] if multi else [ts] * napps
     errs = [cc.SrcErr(f"src{a}") for a in range(napps)]
     xs = []
     for a in range(napps):
@@ -193,7 +202,7 @@ def diff_run(name, sidx, stidx, napps, shared, dispose_at=None):
             ms.append(R.on_completed(10 * (len(vals) + 1)))
         elif term == "E":
             ms.append(R.on_error(10 * (len(vals) + 1), errs[a]))
-        xs.append(ts.create_cold_observable(ms))
+        xs.append(tss[a].create_cold_observable(ms))
     make = diff_factories()[name]
 
     def built():
@@ -213,18 +222,22 @@ def diff_run(name, sidx, stidx, napps, shared, dispose_at=None):
     for a in range(napps):
         def sub(_s=None, _st=None, a=a):
             r = recs[a]
-            handles[a] = ys[a].subscribe(on_next=lambda v: r.append((ts.clock, "N", _norm(v))),
-                                         on_error=lambda e: r.append((ts.clock, "E", type(e).__name__ + ":" + str(e))),
-                                         on_completed=lambda: r.append((ts.clock, "C", None)), scheduler=ts)
-        ts.schedule_absolute(200 + DIFF_STARTS[stidx][a], sub)
-    if dispose_at is not None:
-        ts.schedule_absolute(dispose_at, lambda *_: [h.dispose() for h in handles.values()])
-    ts.schedule_absolute(900, lambda *_: [h.dispose() for h in handles.values()])   # infinite helpers (interval) end here
+            t = tss[a]
+            handles[a] = ys[a].subscribe(on_next=lambda v: r.append((t.clock, "N", _norm(v))),
+                                         on_error=lambda e: r.append((t.clock, "E", type(e).__name__ + ":" + str(e))),
+                                         on_completed=lambda: r.append((t.clock, "C", None)), scheduler=t)
+        tss[a].schedule_absolute(200 + DIFF_STARTS[stidx][a], sub)
     escaped = None
-    try:
-        VirtualTimeScheduler.start(ts)
-    except Exception as ex:
-        escaped = type(ex).__name__ + ":" + str(ex)[:80]
+    for t in (tss if multi else [ts]):
+        mine = [a for a in range(napps) if tss[a] is t]
+        if dispose_at is not None:
+            t.schedule_absolute(dispose_at, lambda *_, mine=mine: [handles[a].dispose() for a in mine if a in handles])
+        # infinite helpers (interval) end here
+        t.schedule_absolute(900, lambda *_, mine=mine: [handles[a].dispose() for a in mine if a in handles])
+        try:
+            VirtualTimeScheduler.start(t)
+        except Exception as ex:
+            escaped = type(ex).__name__ + ":" + str(ex)[:80]
     return {"rec": recs, "subs": [[(s.subscribe, s.unsubscribe) for s in x.subscriptions] for x in xs], "escaped": escaped}
 
 
@@ -239,10 +252,11 @@ def _norm(v):
 
 
 def _djob(args):
-    name, sidx, stidx, napps = args
+    name, sidx, stidx, napps = args[:4]
+    multi = len(args) > 4 and bool(args[4])
     try:
-        a = diff_run(name, sidx, stidx, napps, True)
-        b = diff_run(name, sidx, stidx, napps, False)
+        a = diff_run(name, sidx, stidx, napps, True, multi=multi)
+        b = diff_run(name, sidx, stidx, napps, False, multi=multi)
     except Exception as ex:   # a factory this version of the library does not have / accepts differently
         return ("skip", name, type(ex).__name__ + ":" + str(ex)[:100])
     if a == b:
@@ -250,7 +264,7 @@ def _djob(args):
     for i in range(napps):
         if a["rec"][i] != b["rec"][i] or a["subs"][i] != b["subs"][i]:
             break
-    return ("fail", name, {"engine": "diff", "op": name, "sidx": sidx, "stidx": stidx, "napps": napps, "reason_kind": "differs",
+    return ("fail", name, {"engine": "diff", "op": name, "sidx": sidx, "stidx": stidx, "napps": napps, "multi": multi, "reason_kind": "differs",
                            "fresh_ok": True, "app": i, "shared": {"rec": a["rec"][i], "subs": a["subs"][i], "escaped": a["escaped"]},
                            "fresh": {"rec": b["rec"][i], "subs": b["subs"][i], "escaped": b["escaped"]}})
 
@@ -308,6 +322,8 @@ def run(tier: str) -> int:
     dj = [(nm, s, st, na) for nm in names for s in range(len(DIFF_SRCS)) for st in range(len(DIFF_STARTS)) for na in napps_set]
     if tier == "quick":
         dj = [x for i, x in enumerate(dj) if i % 2 == 0]
+    # one scheduler per application (clocks not in lockstep)
+    dj += [(nm, s, st, 2, True) for nm in MULTI_SCHED for s in range(len(DIFF_SRCS)) for st in range(len(DIFF_STARTS))]
     n3, skipped, dnon = 0, {}, 0
     for kind, name, info in core.parallel_map(_djob, dj, procs=procs, chunk=50):
         if kind == "skip":
@@ -352,7 +368,7 @@ def replay(rec) -> int:
         f = cc.reuse_judge(rec["scn"], rec["expected"], profile=rec["profile"], k=rec["k"], salt=rec["salt"], stride=rec["stride"],
                            order=rec["order"], hot=rec["hot"])
     else:
-        r = _djob((rec["op"], rec["sidx"], rec["stidx"], rec["napps"]))
+        r = _djob((rec["op"], rec["sidx"], rec["stidx"], rec["napps"], rec.get("multi", False)))
         f = r[2] if r[0] == "fail" else None
     print(json.dumps({k: v for k, v in f.items() if k not in ("scn", "expected")}, default=str)[:2000] if f
           else "replay: observation allowed by the spec")
